@@ -45,11 +45,15 @@ func (m *Mat) Scale(f float64, a mat.Matrix) {
 	if m.data == nil {
 		m.data = new(array)
 	}
+	// a may be a view of the receiver, so
+	// all of a is read before m is written.
+	var t [3][3]float64
 	for i := 0; i < 3; i++ {
 		for j := 0; j < 3; j++ {
-			m.Set(i, j, f*a.At(i, j))
+			t[i][j] = f * a.At(i, j)
 		}
 	}
+	m.set(&t)
 }
 
 // MulVec returns the matrix-vector product M⋅v.
@@ -86,9 +90,22 @@ func (m *Mat) CloneFrom(a mat.Matrix) {
 	if m.data == nil {
 		m.data = new(array)
 	}
+	// a may be a view of the receiver, so
+	// all of a is read before m is written.
+	var t [3][3]float64
 	for i := 0; i < 3; i++ {
 		for j := 0; j < 3; j++ {
-			m.Set(i, j, a.At(i, j))
+			t[i][j] = a.At(i, j)
+		}
+	}
+	m.set(&t)
+}
+
+// set sets the elements of the receiver to the elements of t.
+func (m *Mat) set(t *[3][3]float64) {
+	for i := 0; i < 3; i++ {
+		for j := 0; j < 3; j++ {
+			m.Set(i, j, t[i][j])
 		}
 	}
 }
@@ -106,15 +123,13 @@ func (m *Mat) Sub(a, b mat.Matrix) {
 		m.data = new(array)
 	}
 
-	m.Set(0, 0, a.At(0, 0)-b.At(0, 0))
-	m.Set(0, 1, a.At(0, 1)-b.At(0, 1))
-	m.Set(0, 2, a.At(0, 2)-b.At(0, 2))
-	m.Set(1, 0, a.At(1, 0)-b.At(1, 0))
-	m.Set(1, 1, a.At(1, 1)-b.At(1, 1))
-	m.Set(1, 2, a.At(1, 2)-b.At(1, 2))
-	m.Set(2, 0, a.At(2, 0)-b.At(2, 0))
-	m.Set(2, 1, a.At(2, 1)-b.At(2, 1))
-	m.Set(2, 2, a.At(2, 2)-b.At(2, 2))
+	// a or b may be a view of the receiver, so
+	// all of both is read before m is written.
+	m.set(&[3][3]float64{
+		{a.At(0, 0) - b.At(0, 0), a.At(0, 1) - b.At(0, 1), a.At(0, 2) - b.At(0, 2)},
+		{a.At(1, 0) - b.At(1, 0), a.At(1, 1) - b.At(1, 1), a.At(1, 2) - b.At(1, 2)},
+		{a.At(2, 0) - b.At(2, 0), a.At(2, 1) - b.At(2, 1), a.At(2, 2) - b.At(2, 2)},
+	})
 }
 
 // Add adds a and b element-wise, placing the result in the receiver. Add will panic if the two matrices do not have the same shape.
@@ -129,15 +144,13 @@ func (m *Mat) Add(a, b mat.Matrix) {
 		m.data = new(array)
 	}
 
-	m.Set(0, 0, a.At(0, 0)+b.At(0, 0))
-	m.Set(0, 1, a.At(0, 1)+b.At(0, 1))
-	m.Set(0, 2, a.At(0, 2)+b.At(0, 2))
-	m.Set(1, 0, a.At(1, 0)+b.At(1, 0))
-	m.Set(1, 1, a.At(1, 1)+b.At(1, 1))
-	m.Set(1, 2, a.At(1, 2)+b.At(1, 2))
-	m.Set(2, 0, a.At(2, 0)+b.At(2, 0))
-	m.Set(2, 1, a.At(2, 1)+b.At(2, 1))
-	m.Set(2, 2, a.At(2, 2)+b.At(2, 2))
+	// a or b may be a view of the receiver, so
+	// all of both is read before m is written.
+	m.set(&[3][3]float64{
+		{a.At(0, 0) + b.At(0, 0), a.At(0, 1) + b.At(0, 1), a.At(0, 2) + b.At(0, 2)},
+		{a.At(1, 0) + b.At(1, 0), a.At(1, 1) + b.At(1, 1), a.At(1, 2) + b.At(1, 2)},
+		{a.At(2, 0) + b.At(2, 0), a.At(2, 1) + b.At(2, 1), a.At(2, 2) + b.At(2, 2)},
+	})
 }
 
 // VecRow returns the elements in the ith row of the receiver.
